@@ -689,6 +689,17 @@ impl Compiler {
                 self.compile_index_expression(expr)?;
             }
             Expression::Assign(expr) => {
+                // only a variable, an element or a packet property can be
+                // assigned to; anything else would leave both values on the stack
+                let assignable = match expr.left.as_ref() {
+                    Expression::Ident(e) => matches!(e.context.access, AccessType::Set),
+                    Expression::Index(e) => matches!(e.context.access, AccessType::Set),
+                    Expression::Prop(e) => matches!(e.context.access, AccessType::Set),
+                    _ => false,
+                };
+                if !assignable {
+                    return Err(CompileError::new("Invalid lvalue", expr.token.line));
+                }
                 // compile the expression on the right side of the assignment
                 self.compile_expression(*expr.right)?;
                 self.compile_expression(*expr.left)?;
